@@ -117,6 +117,71 @@ func ruleC06Features(p *Prog, r *Res) {
 		return
 	}
 	info := f.Pkg.TypesInfo
+	// roles, not names: the booleans that gate `fs.MainFeatures |= x` / `fs.SubQueryFeatures |= x`, and x
+	var mqV, sqV, fV types.Object
+	ast.Inspect(f.Body(), func(x ast.Node) bool {
+		is, ok := x.(*ast.IfStmt)
+		if !ok || len(is.Body.List) != 1 {
+			return true
+		}
+		as, ok := is.Body.List[0].(*ast.AssignStmt)
+		if !ok || as.Tok.String() != "|=" || len(as.Lhs) != 1 {
+			return true
+		}
+		se, ok := as.Lhs[0].(*ast.SelectorExpr)
+		if !ok {
+			return true
+		}
+		switch se.Sel.Name {
+		case "MainFeatures":
+			mqV, fV = identObj(info, is.Cond), identObj(info, as.Rhs[0])
+		case "SubQueryFeatures":
+			sqV = identObj(info, is.Cond)
+		}
+		return true
+	})
+	if mqV == nil || sqV == nil || fV == nil {
+		r.Undecided(rule+" records", "query.ConditionsSet.Features accumulators", p.Pos(f.Node()), "could not identify the booleans gating MainFeatures |= f / SubQueryFeatures |= f")
+		return
+	}
+	// local closures bound once: a call of one counts as the assignments in its body
+	localLit := map[types.Object]*ast.FuncLit{}
+	ast.Inspect(f.Body(), func(x ast.Node) bool {
+		if as, ok := x.(*ast.AssignStmt); ok && len(as.Lhs) == len(as.Rhs) {
+			for i, rh := range as.Rhs {
+				if lit, ok := rh.(*ast.FuncLit); ok {
+					if o := identObj(info, as.Lhs[i]); o != nil {
+						localLit[o] = lit
+					}
+				}
+			}
+		}
+		return true
+	})
+	var assigned func(n ast.Node, depth int) map[types.Object]bool
+	assigned = func(n ast.Node, depth int) map[types.Object]bool {
+		out := map[types.Object]bool{}
+		ast.Inspect(n, func(x ast.Node) bool {
+			switch s := x.(type) {
+			case *ast.AssignStmt:
+				for _, l := range s.Lhs {
+					if o := identObj(info, l); o != nil {
+						out[o] = true
+					}
+				}
+			case *ast.CallExpr:
+				if depth > 0 {
+					if o := identObj(info, s.Fun); o != nil && localLit[o] != nil {
+						for k := range assigned(localLit[o].Body, depth-1) {
+							out[k] = true
+						}
+					}
+				}
+			}
+			return true
+		})
+		return out
+	}
 	for _, c := range sws[0].Body.List {
 		cc := c.(*ast.CaseClause)
 		if cc.List == nil {
@@ -128,27 +193,14 @@ func ruleC06Features(p *Prog, r *Res) {
 		}
 		setsMQ, setsSQ, setsF := false, false, false
 		for _, st := range cc.Body {
-			ast.Inspect(st, func(x ast.Node) bool {
-				if as, ok := x.(*ast.AssignStmt); ok {
-					for _, l := range as.Lhs {
-						if id, ok := l.(*ast.Ident); ok {
-							switch id.Name {
-							case "mq":
-								setsMQ = true
-							case "sq":
-								setsSQ = true
-							case "f":
-								setsF = true
-							}
-						}
-					}
-				}
-				return true
-			})
+			a := assigned(st, 2)
+			setsMQ = setsMQ || a[mqV]
+			setsSQ = setsSQ || a[sqV]
+			setsF = setsF || a[fV]
 		}
 		key := "query.ConditionsSet.Features case " + kind.Obj().Name()
-		r.Check(setsMQ && setsSQ && setsF, rule+" records", key, p.Pos(cc), "sets mq, sq and f",
-			fmt.Sprintf("clause sets mq=%v sq=%v f=%v: a condition of this kind would not be recorded as main/sub-query feature and tags using it would not be invalidated", setsMQ, setsSQ, setsF))
+		r.Check(setsMQ && setsSQ && setsF, rule+" records", key, p.Pos(cc), "sets the main-query flag, the sub-query flag and the feature bits",
+			fmt.Sprintf("clause sets main-query flag=%v sub-query flag=%v feature bits=%v: a condition of this kind would not be recorded as main/sub-query feature and tags using it would not be invalidated", setsMQ, setsSQ, setsF))
 	}
 	// the accumulated bits reach the result
 	okMain, okSub := false, false
